@@ -7,9 +7,10 @@ package config
 // Type invariant of an accepted advertising interface as far as RA generation
 // needs it (established by the parser: C02/C03 carriers).
 //@ macro pluginsOK(ps) = forall(j, 0, len(ps), ps[j].tag != 0 && pluginOK(ps[j])) && forall(a, 0, len(ps), forall(b, a + 1, len(ps), pluginRank(dyn(ps[a])) <= pluginRank(dyn(ps[b]))))
-//@ macro ifiOK(ifi) = 0 <= ifi.DefaultLifetime && pluginsOK(ifi.Plugins)
+//@ macro headerCfgOK(ifi) = 0 <= ifi.DefaultLifetime && ifi.DefaultLifetime <= secs(9000) && 0 <= ifi.ReachableTime && ifi.ReachableTime <= secs(3600) && 0 <= ifi.RetransmitTimer && ifi.RetransmitTimer <= secs(3600) && prefValid(ifi.Preference)
+//@ macro ifiOK(ifi) = headerCfgOK(ifi) && pluginsOK(ifi.Plugins)
 //@ macro pluginsCfgOK(ps) = forall(j, 0, len(ps), ps[j].tag != 0 && pluginCfgOK(ps[j])) && forall(a, 0, len(ps), forall(b, a + 1, len(ps), pluginRank(dyn(ps[a])) <= pluginRank(dyn(ps[b]))))
-//@ macro ifiCfgOK(ifi) = 0 <= ifi.DefaultLifetime && pluginsCfgOK(ifi.Plugins)
+//@ macro ifiCfgOK(ifi) = headerCfgOK(ifi) && pluginsCfgOK(ifi.Plugins)
 
 // C04: the forwarding flag handed to RouterAdvertisement must be a fresh read
 // of the interface's state (ghost token set by State.IPv6Forwarding).
@@ -19,7 +20,7 @@ package config
 
 //@ macro raHeaderFrom(ra, ifi) = ra.CurrentHopLimit == ifi.HopLimit && ra.ManagedConfiguration == ifi.Managed && ra.OtherConfiguration == ifi.OtherConfig && ra.RouterSelectionPreference == ifi.Preference && ra.ReachableTime == ifi.ReachableTime && ra.RetransmitTimer == ifi.RetransmitTimer && !ra.MobileIPv6HomeAgent && !ra.NeighborDiscoveryProxy
 //@ macro optsSorted(opts) = forall(a, 0, len(opts), forall(b, a + 1, len(opts), optRank(dyn(opts[a])) <= optRank(dyn(opts[b]))))
-//@ macro optsKnown(opts) = forall(k, 0, len(opts), optRank(dyn(opts[k])) >= 1 && opts[k].val > 0)
+//@ macro optsKnown(opts) = forall(k, 0, len(opts), optRank(dyn(opts[k])) >= 1 && opts[k].val > 0 && (isType(opts[k], "*ndp.RouteInformation") ==> prefValid(as(opts[k], "*ndp.RouteInformation").Preference)))
 
 //@ func (Interface).RouterAdvertisement
 //@   requires P1: ifiOK(ifi)
@@ -27,7 +28,7 @@ package config
 //@   assigns new heap(ndp.RouterAdvertisement), new mem(ndp.Option), new heap(ndp.PrefixInformation), new heap(ndp.RouteInformation), new heap(ndp.RecursiveDNSServer), new heap(ndp.DNSSearchList), new heap(ndp.MTU), new heap(ndp.LinkLayerAddress), new mem(netip.Addr), new mem(netip.Prefix), new mem(system.IP), new mem(system.Route), new mem(config.Misconfiguration), ghost.clockRead, ghost.now, ghost.lastAddrs, ghost.lastRoutes
 //@   loop 1 invariant R0 [C01,C04]: 0 <= rangeindex + 1 && rangeindex + 1 <= len(ifi.Plugins) && ra != nil && fresh(ra) && ifiOK(ifi)
 //@   loop 1 invariant R1 [C01,C04]: raHeaderFrom(ra, ifi) && ra.RouterLifetime == ifi.DefaultLifetime
-//@   loop 1 invariant R2 [C01]: optsSorted(ra.Options) && optsKnown(ra.Options)
+//@   loop 1 invariant R2 [C01]: optsSorted(ra.Options) && optsKnown(ra.Options) && forall(k, 0, len(ra.Options), ra.Options[k].val < brk)
 //@   loop 1 invariant R3 [C01]: forall(k, 0, len(ra.Options), forall(j, rangeindex + 1, len(ifi.Plugins), optRank(dyn(ra.Options[k])) <= pluginRank(dyn(ifi.Plugins[j]))))
 //@   ensures H1 [C01]: result2 == nil ==> result0 != nil && raHeaderFrom(result0, ifi)
 //@   ensures H2 [C04,C01,C08]: result2 == nil ==> result0.RouterLifetime == ite(forwarding, ifi.DefaultLifetime, 0)
